@@ -137,7 +137,7 @@ fn lang_cmp(s1: &str, s2: &str) -> core::cmp::Ordering {
     let n = core::cmp::max(da, db);
     let ea = core::cmp::min(n, s1.len());
     let eb = core::cmp::min(n, s2.len());
-    s1[..ea].cmp(&s2[..eb])
+    s1.as_bytes()[..ea].cmp(&s2.as_bytes()[..eb])
 }
 
 fn tags_from_language(language: &Language, tags: &mut ThreeTags) {
